@@ -154,7 +154,7 @@ impl<'a> SegRunner<'a> {
                     if !stale.is_empty() { self.fail(&["C16"], &format!("copies left after a fully consumed whole-domain query at time {}", t), "none with expiration below the query time", &format!("{:?}", stale)); }
                     let copies: usize = chunks.iter().map(|c| c.len()).sum();
                     let unexpired = self.vals.iter().filter(|v| v.3 >= t).count();
-                    if copies > 8 * unexpired { self.fail(&["C16", "C15"], "stored copies exceed 8 per unexpired value", &format!("<= {}", 8 * unexpired), &copies.to_string()); }
+                    if copies > 8 * unexpired { self.fail(&["C16"], "stored copies exceed 8 per unexpired value", &format!("<= {}", 8 * unexpired), &copies.to_string()); }
                     self.vals.retain(|v| v.3 >= t);
                 }
             }
